@@ -155,6 +155,11 @@ At(s, k, dflt) == IF k >= 1 /\ k <= Len(s) THEN s[k] ELSE dflt
 \* switch on the bookkeeping of either role - a half-assigned gate is closed, never carried over
 SwitchSt(st) == [st EXCEPT !.pending = NoPending]
 
+(* C17: the capacity thresholds.  The prover checks cap >= n1 before the first-phase commitments and
+   cap >= Pad2(n) after the callbacks; the verifier checks cap >= Pad2(n) after the callbacks. *)
+ProverCapError1(cap, n1) == cap < n1
+CapError2(cap, n) == cap < Pad2(n)
+
 \* transcript operations of the first part, given the commitments the prover emits
 P1RngOps(st) ==
   << OpA("m", "u64", Len(st.v)), OpRB >> \o [j \in 1 .. Len(st.v) |-> OpRK("v_blinding", st.vb[j])] \o << OpRF >>
@@ -171,7 +176,7 @@ ProveP1(env, cap, st, d) ==
       AI1 == Fadd(Fmul(i1, env.Bb), Fadd(IP(st.aL, G1), IP(st.aR, H1)))
       AO1 == Fadd(Fmul(o1, env.Bb), IP(st.aO, G1))
       S1 == Fadd(Fmul(s1, env.Bb), Fadd(IP(sL1, G1), IP(sR1, H1)))
-  IN IF cap < n1
+  IN IF ProverCapError1(cap, n1)
      THEN [res |-> "InvalidGeneratorsLength", ops |-> P1RngOps(st), used |-> 0, st |-> st, mid |-> << >>]
      ELSE [res |-> "", ops |-> << >>,
            used |-> 3 + 2 * n1,
@@ -252,7 +257,7 @@ ProveP2(env, cap, st, mid, d, ch) ==
       Hf == [i \in 1 .. pn |-> Fmul(yiv[i], Gf[i])]
       ipp == Create(lvec, rvec, Take(env.G, pn), Take(env.H, pn), Gf, Hf, Q, uk)
       ops1 == << OpA("A_I2", "pt", AI2), OpA("A_O2", "pt", AO2), OpA("S2", "pt", S2), OpC("y"), OpC("z") >>
-  IN IF cap < pn
+  IN IF CapError2(cap, n)
      THEN [res |-> "InvalidGeneratorsLength", ops |-> << >>, used |-> 0, degenerate |-> FALSE, proof |-> << >>]
      ELSE IF y = 0
      THEN [res |-> "degenerate", ops |-> ops1, used |-> off + 2 * n2, degenerate |-> TRUE, proof |-> << >>]
@@ -369,7 +374,7 @@ VerifyP2(env, cap, st, n1, pf, ch) ==
              ELSE [ok |-> TRUE, ops |-> prev.ops \o << OpA("L", "pt", pf.L[j]), OpA("R", "pt", pf.R[j]), OpC("u") >>]
       alg == VerifierAlgebra(env, st, n1, pf, y, z, u, x, w, uk, r)
       Done(res, ops, dg) == [res |-> res, ops |-> ops, degenerate |-> dg, alg |-> << >>]
-  IN IF cap < pn THEN Done("InvalidGeneratorsLength", << >>, FALSE)
+  IN IF CapError2(cap, n) THEN Done("InvalidGeneratorsLength", << >>, FALSE)
      ELSE IF ~tval.ok THEN Done("VerificationError", ops1 \o tval.ops, FALSE)
      ELSE IF ~ShapeOk(pn, nL, nR) THEN Done("VerificationError", ops1 \o tval.ops \o ops2, FALSE)
      ELSE IF ~RoundsVal[nL].ok THEN Done("VerificationError", ops1 \o tval.ops \o ops2 \o RoundsVal[nL].ops, FALSE)
